@@ -4,422 +4,12 @@ answers after the synchronisation pause, and the claimant receives the reply wit
 (work towards phases (b)/(c); C02).
 -/
 import ProfiVerif.Lemmas.ColdStartDuo
+import ProfiVerif.Lemmas.AwaitReply
 
 namespace PV
 open StationGap TokenRing
 
-/-- A telegram of the lone holder `aL`, possibly a GAP request to the listener itself. -/
-def LoneTelR (aL : Nat) (t : Telegram) : Prop :=
-  t = .token (UInt8.ofNat aL) (UInt8.ofNat aL) ∨ ∃ g, g < 128 ∧ t = reqTel g aL
-
-theorem LoneTelR.valid {aL : Nat} {t : Telegram} (h : LoneTelR aL t) (haL : aL < 128) : t.Valid := by
-  rcases h with rfl | ⟨g, hg, rfl⟩
-  · trivial
-  · exact reqTel_valid g aL hg haL
-
-/-- The requester a `ListenToken` station registers for a telegram flagged `fl`. -/
-def regSr (me : Nat) : Telegram → Bool → Option Nat
-  | .data h _, true =>
-    (match h.fc with
-     | .request _ .fdlStatus => if h.da.toNat = me then some h.sa.toNat else none
-     | _ => none)
-  | _, _ => none
-
-theorem regSr_req (me g aL : Nat) (hg : g < 128) (haL : aL < 128) (fl : Bool) :
-    regSr me (reqTel g aL) fl = if fl = true ∧ g = me then some aL else none := by
-  cases fl with
-  | false => simp [regSr, reqTel]
-  | true =>
-    simp only [regSr, reqTel, fdlStatusRequestHeader, true_and]
-    rw [u8n g (by omega), u8n aL (by omega)]
-
-/-- One overheard telegram of the lone holder in `ListenToken` (no request pending), requests to the listener
-included. -/
-theorem listenTelegram_loneR (now : Int) (c : Ctx) (t : Telegram) (fl : Bool) (aL coll : Nat) (l : Int)
-    (hon : c.s.online = true) (hst : c.s.st = .listenToken none coll) (hl : c.s.lastBusActivity = some l) (hle : l ≤ now)
-    (haL : aL < 128) (hne : aL ≠ c.s.p.address) (ht : LoneTelR aL t) :
-    listenTelegram now c t fl = .ok { c with s := { c.s with
-      pendingBytes := 0, lastBusActivity := some now,
-      ring := if isTok t then c.s.ring.witness aL aL else c.s.ring,
-      st := .listenToken (regSr c.s.p.address t fl) coll } } := by
-  rcases ht with rfl | ⟨g, hg, rfl⟩
-  · rw [listenTelegram_lone now c _ fl aL coll l hon hst hl hle haL hne (.inl rfl)]
-    simp only [regSr, hst]
-  · rw [regSr_req _ g aL hg haL]
-    by_cases hgm : g = c.s.p.address
-    · unfold listenTelegram
-      have hm : (upd c fun s => markRx s now) =
-          { c with s := { c.s with pendingBytes := 0, lastBusActivity := some now } } := by
-        simp only [upd]; rw [markRx_at c.s now l hl hle]
-      rw [hm]
-      have hrec := C12.listen_records_request { c with s := { c.s with pendingBytes := 0, lastBusActivity := some now } } fl none coll
-        (fdlStatusRequestHeader (UInt8.ofNat g) (UInt8.ofNat aL)) [] .inactive hon hst
-        (by simp [fdlStatusRequestHeader]) (by simp [fdlStatusRequestHeader]; omega)
-        (by simp [fdlStatusRequestHeader]; omega)
-      unfold reqTel
-      rw [hrec]
-      cases fl with
-      | false => simp [isTok, hst]
-      | true =>
-        simp only [if_true, upd, isTok, Bool.false_eq_true, if_false, hgm, and_self, fdlStatusRequestHeader]
-        rw [u8n aL (by omega)]
-    · have hreg : (if fl = true ∧ g = c.s.p.address then some aL else none) = (none : Option Nat) :=
-        if_neg (fun h => hgm h.2)
-      rw [hreg, listenTelegram_lone now c _ fl aL coll l hon hst hl hle haL hne (.inr ⟨g, hg, hgm, rfl⟩)]
-      simp only [hst]
-
-/-- The requester registered by a batch: decided by its last telegram. -/
-def lastReg (me : Nat) (calls : List (Telegram × Bool)) : Option Nat :=
-  match calls.getLast? with
-  | some (t, fl) => regSr me t fl
-  | none => none
-
-theorem regSr_false (me : Nat) (t : Telegram) : regSr me t false = none := by
-  cases t <;> rfl
-
-/-- Station after a non-empty batch, with the registered requester. -/
-def heardSR (aL : Nat) (s : Station) (now : Int) (calls : List (Telegram × Bool)) (coll : Nat) : Station :=
-  { heardS aL s now (calls.map Prod.fst) with st := .listenToken (lastReg s.p.address calls) coll }
-
-theorem foldListen_loneR (now : Int) (aL coll : Nat) (haL : aL < 128) : ∀ (calls : List (Telegram × Bool)) (c : Ctx) (l : Int),
-    calls ≠ [] → c.s.online = true → c.s.st = .listenToken none coll → c.s.lastBusActivity = some l → l ≤ now →
-    aL ≠ c.s.p.address → (∀ x ∈ calls, LoneTelR aL x.1) → (∀ x ∈ calls.dropLast, x.2 = false) →
-    foldTelegrams (listenTelegram now) c calls = .ok { c with s := heardSR aL c.s now calls coll } := by
-  intro calls
-  induction calls with
-  | nil => intro c l h; exact absurd rfl h
-  | cons x rest ih =>
-    intro c l _ hon hst hl hle hne hall hfl
-    obtain ⟨t, fl⟩ := x
-    simp only [foldTelegrams]
-    rw [listenTelegram_loneR now c t fl aL coll l hon hst hl hle haL hne (hall (t, fl) (List.mem_cons_self ..))]
-    simp only [Res.bind]
-    by_cases hr : rest = []
-    · subst hr
-      simp only [foldTelegrams, heardSR, heardS, List.map_cons, List.map_nil, hearAll, lastReg, List.getLast?_singleton]
-    · have hflx : fl = false := by
-        have : (t, fl) ∈ ((t, fl) :: rest).dropLast := by
-          cases rest with
-          | nil => exact absurd rfl hr
-          | cons y ys => simp [List.dropLast]
-        exact hfl _ this
-      subst hflx
-      rw [regSr_false]
-      rw [ih ⟨{ c.s with pendingBytes := 0, lastBusActivity := some now, ring := if isTok t then c.s.ring.witness aL aL else c.s.ring, st := .listenToken none coll }, c.apps, c.rx, c.tx, c.calls⟩
-        now hr hon rfl rfl (Int.le_refl _) hne (fun y hy => hall y (List.mem_cons_of_mem _ hy))
-        (fun y hy => hfl y (by
-          cases rest with
-          | nil => exact absurd rfl hr
-          | cons z zs => simp only [List.dropLast_cons₂]; exact List.mem_cons_of_mem _ hy))]
-      have hlr : lastReg c.s.p.address ((t, false) :: rest) = lastReg c.s.p.address rest := by
-        unfold lastReg
-        rw [List.getLast?_cons_of_ne_nil hr]
-      simp only [heardSR, heardS, List.map_cons, hearAll, hlr]
-
-/-- The log of a lone transmitter `x` (address `aL`) (GAP requests to any address): fault-free, non-overlapping, all
-transmissions by `x`, each a self-addressed token or a GAP request. -/
-structure LoneLogR (cfg : Cfg) (aL x : Nat) (b : Bus) : Prop where
-  rate : b.rate = cfg.rate
-  corrupt : b.corrupt = []
-  chained : CChained cfg b.txs
-  live : ∀ t ∈ b.txs, t.dropped = false
-  own : ∀ t ∈ b.txs, t.sender = x
-  kinds : ∀ t ∈ b.txs, t.bytes = tokenBytes aL aL ∨ ∃ g, g < 126 ∧ t.bytes = statusRequestBytes g aL
-
-theorem LoneLogR.busChained {cfg : Cfg} {aL x : Nat} {b : Bus} (h : LoneLogR cfg aL x b) : b.Chained b.txs := by
-  unfold Bus.Chained
-  have := h.chained
-  unfold CChained at this
-  refine this.imp ?_
-  intro o t hot
-  unfold Bus.txEnd
-  rw [byteEnd_cfg b cfg h.rate]; exact hot
-
-theorem LoneLogR.wire {cfg : Cfg} {aL x : Nat} {b : Bus} (h : LoneLogR cfg aL x b) (haL : aL < 126) (t : Transmission)
-    (ht : t ∈ b.txs) : t.bytes = (telOf t).wire ∧ (telOf t).Valid ∧ 0 < t.bytes.length ∧ LoneTelR aL (telOf t) := by
-  rcases h.kinds t ht with hb | ⟨g, hg, hb⟩
-  · have e : telOf t = tokTel [aL] aL := telOf_token t aL [aL] (by rw [cycSucc_single]; exact hb)
-    rw [e]
-    refine ⟨by rw [tokTel_wire, cycSucc_single]; exact hb, trivial, by rw [hb]; show 0 < 3; omega, .inl ?_⟩
-    unfold tokTel; rw [cycSucc_single]
-  · have e : telOf t = reqTel g aL := telOf_req t g aL (by omega) (by omega) hb
-    rw [e]
-    exact ⟨by rw [reqTel_wire]; exact hb, reqTel_valid g aL (by omega) (by omega),
-      by rw [hb, statusRequestBytes_length]; omega, .inr ⟨g, by omega, rfl⟩⟩
-
-/-- What the bus hands to a listener of the lone transmitter. -/
-theorem lone_deliverR {cfg : Cfg} {aL x : Nat} {b : Bus} (hlog : LoneLogR cfg aL x b) (hr : 0 < cfg.rate) (haL : aL < 126)
-    (j : Nat) (hjx : j ≠ x) (now : Int) (dn rs : List Transmission) (h1 : b.txs = dn ++ rs)
-    (h2 : ∀ o ∈ dn, cEnd cfg o ≤ b.seen.getD j 0) (hsn : b.seen.getD j 0 ≤ now) :
-    ∃ inc, b.deliver j now = ({ b with seen := b.seen.set j now }, inc) ∧
-      arrived cfg rs (b.seen.getD j 0) ++ inc = arrived cfg rs now := by
-  have hc := hlog.chained
-  rw [h1] at hc
-  have hcrs : CChained cfg rs := (List.pairwise_append.1 hc).2.1
-  have hpos : ∀ t ∈ b.txs, 0 < t.bytes.length := fun t ht => (hlog.wire haL t ht).2.2.1
-  refine ⟨_, Bus.deliver_chained b (by rw [hlog.rate]; exact hr) hlog.corrupt j now hlog.busChained hlog.live, ?_⟩
-  rw [h1, List.map_append, List.flatten_append,
-    seg_done cfg hr b hlog.rate j _ now hsn dn (fun o ho =>
-      .inr ⟨hpos o (by rw [h1]; exact List.mem_append_left _ ho), h2 o ho⟩),
-    List.nil_append]
-  exact arrived_extend cfg hr b hlog.rate j _ now hsn rs hcrs
-    (fun t ht => hpos t (by rw [h1]; exact List.mem_append_right _ ht))
-    (fun t ht => by rw [hlog.own t (by rw [h1]; exact List.mem_append_right _ ht)]; exact Ne.symm hjx)
-
-theorem lone_phyR {cfg : Cfg} {aL x : Nat} {b : Bus} (hlog : LoneLogR cfg aL x b) (j : Nat) (hjx : j ≠ x) (now : Int) :
-    b.transmitting j now = false := by
-  unfold Bus.transmitting
-  cases hf : b.txs.reverse.find? (fun t => decide (t.sender = j)) with
-  | none => rfl
-  | some t =>
-    exfalso
-    have hmem : t ∈ b.txs := List.mem_reverse.1 (List.mem_of_find?_eq_some hf)
-    have hs : t.sender = j := by simpa using List.find?_some hf
-    rw [hlog.own t hmem] at hs
-    exact hjx hs.symm
-
-/-- The listener condition with explicit decomposition (`dn` delivered, `rs` not yet consumed, stamp `l`) and
-registered requester `sr`. -/
-def LLOkX (cfg : Cfg) (G aL : Nat) (b : Bus) (H : Int) (j : Nat) (st : NetStation) (r0 : TokenRing) (hd : List Telegram)
-    (sr : Option Nat) (dn rs : List Transmission) (l : Int) (coll : Nat) : Prop :=
-  st.online = true ∧ st.dead = false ∧ Inv st.s st.apps ∧ st.s.online = true ∧ aL ≠ st.s.p.address ∧
-  G + cfg.ce 0 + 2 ≤ st.s.p.tokenLostTimeout ∧ st.s.ring = hearAll aL hd r0 ∧
-    b.txs = dn ++ rs ∧ (∀ o ∈ dn, cEnd cfg o ≤ b.seen.getD j 0) ∧
-    st.rx = arrived cfg rs (b.seen.getD j 0) ∧ st.s.pendingBytes ≤ (arrived cfg rs (b.seen.getD j 0)).length ∧
-    (∀ t rest, rs = t :: rest → cvis cfg t (b.seen.getD j 0) < t.bytes.length) ∧
-    st.s.lastBusActivity = some l ∧ l ≤ b.seen.getD j 0 ∧ st.s.st = .listenToken sr coll ∧
-    nextArr cfg H rs (b.seen.getD j 0) < l + (st.s.p.tokenLostTimeout : Nat)
-
-theorem LLOkX.ofLLOk {cfg : Cfg} {G aL : Nat} {b : Bus} {H : Int} {j : Nat} {st : NetStation} {r0 : TokenRing}
-    {hd : List Telegram} (h : LLOk cfg G aL b H j st r0 hd) : ∃ dn rs l coll, LLOkX cfg G aL b H j st r0 hd none dn rs l coll := by
-  obtain ⟨hon, hal, hinv, hson, hne, htto, hring, dn, rs, l, coll, rest⟩ := h
-  exact ⟨dn, rs, l, coll, hon, hal, hinv, hson, hne, htto, hring, rest⟩
-
-theorem LLOkX.toLLOk {cfg : Cfg} {G aL : Nat} {b : Bus} {H : Int} {j : Nat} {st : NetStation} {r0 : TokenRing}
-    {hd : List Telegram} {dn rs : List Transmission} {l : Int} {coll : Nat}
-    (h : LLOkX cfg G aL b H j st r0 hd none dn rs l coll) : LLOk cfg G aL b H j st r0 hd := by
-  obtain ⟨hon, hal, hinv, hson, hne, htto, hring, rest⟩ := h
-  exact ⟨hon, hal, hinv, hson, hne, htto, hring, dn, rs, l, coll, rest⟩
-
-/-- **One poll of a listening station (no request pending) that overhears the lone transmitter, GAP requests to
-itself included**: as `llisten_step`; if the batch consumed ends with a request addressed to the listener and
-flagged as last, the requester is registered. -/
-theorem llisten_stepR {cfg : Cfg} {G aL x : Nat} {b : Bus} {H : Int} {j : Nat} {st : NetStation} {r0 : TokenRing}
-    {hd : List Telegram} {dn rs : List Transmission} {l : Int} {coll : Nat}
-    (hL : LLOkX cfg G aL b H j st r0 hd none dn rs l coll) (hlog : LoneLogR cfg aL x b) (hr : 0 < cfg.rate)
-    (haL : aL < 126) (hjx : j ≠ x) (hjl : j < b.seen.length) (now : Int) (hsn : b.seen.getD j 0 < now) (hnowH : now ≤ H)
-    (hstart : ∀ t ∈ b.txs, t.start ≤ now)
-    (hH : ∀ t, b.txs.getLast? = some t → H ≤ cEnd cfg t + (G : Nat)) :
-    ∃ inc c, b.deliver j now = ({ b with seen := b.seen.set j now }, inc) ∧
-      st.s.poll st.apps now (b.transmitting j now) (st.rx ++ inc) = .ok c ∧ c.tx = none ∧ c.s.p = st.s.p ∧
-      ((LLOkX cfg G aL { b with seen := b.seen.set j now } H j (upSt st c) r0 hd none dn rs
-          (if (arrived cfg rs now).length > st.s.pendingBytes then now else l) coll) ∨
-       (∃ k d, 1 ≤ k ∧ d.map Prod.fst = (rs.take k).map telOf ∧ (∀ y ∈ d.dropLast, y.2 = false) ∧
-          (rs.drop k = [] → ∃ pre t, d = pre ++ [(t, true)]) ∧
-          LLOkX cfg G aL { b with seen := b.seen.set j now } H j (upSt st c) r0 (hd ++ d.map Prod.fst)
-            (lastReg st.s.p.address d) (dn ++ rs.take k) (rs.drop k) now coll)) := by
-  obtain ⟨hon, hal, hinv, hson, hne, htto, hring, h1, h2, h4, h5, h6, h7, h8, hst, h10⟩ := hL
-  have hc0 := cfg.ce_pos hr 0
-  have hphy := lone_phyR hlog j hjx now
-  obtain ⟨inc, hdv, hcat⟩ := lone_deliverR hlog hr haL j hjx now dn rs h1 h2 (Int.le_of_lt hsn)
-  have hc := hlog.chained
-  rw [h1] at hc
-  have hcrs : CChained cfg rs := (List.pairwise_append.1 hc).2.1
-  have hw : ∀ t ∈ rs, t.bytes = (telOf t).wire ∧ (telOf t).Valid ∧ 0 < t.bytes.length := fun t ht => by
-    have := hlog.wire haL t (by rw [h1]; exact List.mem_append_right _ ht)
-    exact ⟨this.1, this.2.1, this.2.2.1⟩
-  obtain ⟨k, b', d, ret, hrec, hk, hdm, hfl, hfull, hb', hhead, hnil, hlastflag, hd0⟩ := consume cfg hr telOf rs now hcrs hw
-  have hl' : l < now := by omega
-  have hrx' : st.rx ++ inc = arrived cfg rs now := by rw [h4]; exact hcat
-  have hto : 0 < st.s.p.tokenLostTimeout := by omega
-  obtain ⟨f1, f2, f3, f4, -⟩ := checkBA_fields st.s now (arrived cfg rs now).length
-  have hlate : ∀ l0, st.s.lastBusActivity = some l0 → l0 < now := by intro l0 hl0; rw [h7] at hl0; cases hl0; exact hl'
-  by_cases hdn : d = []
-  · -- no complete telegram
-    have hk0 := hd0 hdn
-    subst hk0
-    simp only [List.drop_zero] at hb' hhead
-    subst hdn
-    rw [hb'] at hrec
-    have hhead' : ∀ t rest, rs = t :: rest → cvis cfg t now < t.bytes.length ∧ ∀ t' ∈ rest, cvis cfg t' now = 0 :=
-      fun t rest hrs => ⟨(hhead t rest hrs).1, (hhead t rest hrs).2.2⟩
-    have hlen : (arrived cfg rs (b.seen.getD j 0)).length ≤ (arrived cfg rs now).length := by
-      rw [← hcat, List.length_append]; omega
-    have hnonew : ¬ st.s.pendingBytes < (arrived cfg rs now).length → now < nextArr cfg H rs (b.seen.getD j 0) := by
-      intro hnn
-      have hinc : inc = [] := by
-        have := congrArg List.length hcat
-        rw [List.length_append] at this
-        exact List.eq_nil_of_length_eq_zero (by omega)
-      unfold nextArr
-      cases rs with
-      | nil => simp only; omega
-      | cons t rest =>
-        simp only
-        obtain ⟨hlt, hz⟩ := hhead' t rest rfl
-        have hlt0 : cvis cfg t (b.seen.getD j 0) < t.bytes.length := by
-          have := cvis_mono cfg t _ now (Int.le_of_lt hsn); omega
-        have hveq : cvis cfg t now = cvis cfg t (b.seen.getD j 0) := by
-          have e1 : arrived cfg (t :: rest) now = t.bytes.take (cvis cfg t now) := by
-            rw [arrived_cons, arrived_nil_of_zero cfg rest now hz, List.append_nil]
-          have hz0 : ∀ t' ∈ rest, cvis cfg t' (b.seen.getD j 0) = 0 := fun t' ht' => by
-            have := cvis_mono cfg t' _ now (Int.le_of_lt hsn); have := hz t' ht'; omega
-          have e2 : arrived cfg (t :: rest) (b.seen.getD j 0) = t.bytes.take (cvis cfg t (b.seen.getD j 0)) := by
-            rw [arrived_cons, arrived_nil_of_zero cfg rest _ hz0, List.append_nil]
-          rw [hinc, List.append_nil, e1, e2] at hcat
-          have := congrArg List.length hcat
-          rw [List.length_take, List.length_take] at this
-          omega
-        have : ¬ (t.start + ((cfg.ce (cvis cfg t (b.seen.getD j 0)) : Nat) : Int) ≤ now) := by
-          intro hc'
-          have := (cvis_spec cfg t now _ hlt0).2 hc'
-          omega
-        omega
-    have hpollb := listen_poll_batch st.s st.apps now (arrived cfg rs now) (arrived cfg rs now) [] ret coll l hson hst h7 hl'
-      (by
-        by_cases hnew : st.s.pendingBytes < (arrived cfg rs now).length
-        · exact .inl hnew
-        · right; have := hnonew hnew; omega) hto hrec
-    simp only [foldTelegrams] at hpollb
-    have hlast := checkBA_last st.s now (arrived cfg rs now).length hlate
-    refine ⟨inc, _, hdv, by rw [hphy, hrx']; exact hpollb, rfl, f2, .inl ?_⟩
-    refine ⟨hon, hal, ?_, by show (checkBusActivity st.s now _).online = true; rw [f4]; exact hson,
-      by show aL ≠ (checkBusActivity st.s now _).p.address; rw [f2]; exact hne,
-      by show _ ≤ (checkBusActivity st.s now _).p.tokenLostTimeout; rw [f2]; exact htto,
-      by show (checkBusActivity st.s now _).ring = _; rw [f3]; exact hring, h1, ?_⟩
-    · obtain ⟨c', hc', hinv', -⟩ := pollInner_good { s := st.s, apps := st.apps, rx := arrived cfg rs now } now false hinv rfl
-      have : st.s.poll st.apps now false (arrived cfg rs now) = .ok c' := hc'
-      rw [hpollb] at this
-      cases this
-      exact hinv'
-    rw [getD_set_self b j now hjl]
-    refine ⟨fun o ho => by have := h2 o ho; omega, rfl, ?_, fun t rest hrs => (hhead' t rest hrs).1, ?_, ?_,
-      by show (checkBusActivity st.s now _).st = _; rw [f1]; exact hst, ?_⟩
-    · show (checkBusActivity st.s now _).pendingBytes ≤ _
-      unfold checkBusActivity; split
-      · exact Nat.le_refl _
-      · omega
-    · show (checkBusActivity st.s now _).lastBusActivity = _
-      rw [hlast]; split <;> simp [h7]
-    · split <;> omega
-    · show nextArr cfg H rs now < _ + (((checkBusActivity st.s now _).p.tokenLostTimeout : Nat) : Int)
-      rw [f2]
-      by_cases hnew : (arrived cfg rs now).length > st.s.pendingBytes
-      · rw [if_pos hnew]
-        cases rs with
-        | nil => simp [arrived] at hnew
-        | cons t rest =>
-          have := nextArr_after cfg hr H t rest now (hhead' t rest rfl).1 (hstart t (by rw [h1]; simp))
-          omega
-      · rw [if_neg hnew]
-        have hlt := hnonew (by omega)
-        have heq : nextArr cfg H rs now = nextArr cfg H rs (b.seen.getD j 0) := by
-          unfold nextArr at hlt ⊢
-          cases rs with
-          | nil => rfl
-          | cons t rest =>
-            simp only at hlt ⊢
-            have hlt0 : cvis cfg t (b.seen.getD j 0) < t.bytes.length := by
-              have := cvis_mono cfg t _ now (Int.le_of_lt hsn); have := (hhead' t rest rfl).1; omega
-            have h' : ¬ (cvis cfg t (b.seen.getD j 0) < cvis cfg t now) := fun hh => by
-              have := (cvis_spec cfg t now _ hlt0).1 hh; omega
-            have := cvis_mono cfg t _ now (Int.le_of_lt hsn)
-            have e : cvis cfg t now = cvis cfg t (b.seen.getD j 0) := by omega
-            rw [e]
-        rw [heq]; exact h10
-  · -- at least one complete telegram: new bytes have arrived
-    have hk1 : 1 ≤ k := by
-      cases k with
-      | zero =>
-        simp only [List.take_zero, List.map_nil, List.map_eq_nil_iff] at hdm
-        exact absurd hdm hdn
-      | succ k => omega
-    have hnew : st.s.pendingBytes < (arrived cfg rs now).length := by
-      cases rs with
-      | nil => simp only [List.length_nil] at hk; omega
-      | cons t0 rest =>
-        have hmem0 : t0 ∈ (t0 :: rest).take k := by
-          cases k with
-          | zero => omega
-          | succ k' => rw [List.take_succ_cons]; exact List.mem_cons_self ..
-        have hf0 := hfull t0 hmem0
-        have hlt0 := h6 t0 rest rfl
-        rw [arrived_length] at h5 ⊢
-        rw [arrivedLen_cons] at h5 ⊢
-        have := arrivedLen_mono cfg rest _ now (Int.le_of_lt hsn)
-        omega
-    have hpollb := listen_poll_batch st.s st.apps now (arrived cfg rs now) b' d ret coll l hson hst h7 hl' (.inl hnew) hto hrec
-    obtain ⟨l1, hl1, hle1, -⟩ := checkBA_stamp st.s now (arrived cfg rs now).length hlate (.inl hnew)
-    have hall : ∀ y ∈ d, LoneTelR aL y.1 := by
-      intro y hy
-      have : y.1 ∈ (rs.take k).map telOf := by rw [← hdm]; exact List.mem_map_of_mem hy
-      obtain ⟨t', ht', e⟩ := List.mem_map.1 this
-      rw [← e]
-      exact (hlog.wire haL t' (by rw [h1]; exact List.mem_append_right _ (List.mem_of_mem_take ht'))).2.2.2
-    have hfold := foldListen_loneR now aL coll (by omega) d
-      { s := checkBusActivity st.s now (arrived cfg rs now).length, apps := st.apps, rx := b' } l1 hdn
-      (by rw [f4]; exact hson) (by rw [f1]; exact hst) hl1 hle1 (by rw [f2]; exact hne) hall hfl
-    have hpoll : st.s.poll st.apps now false (arrived cfg rs now) = .ok
-        { s := heardSR aL (checkBusActivity st.s now (arrived cfg rs now).length) now d coll, apps := st.apps, rx := b' } := by
-      rw [hpollb, hfold]
-    have hsplit : rs = rs.take k ++ rs.drop k := (List.take_append_drop _ _).symm
-    refine ⟨inc, _, hdv, by rw [hphy, hrx']; exact hpoll, rfl, f2, .inr ⟨k, d, hk1, hdm, hfl, ?_, ?_⟩⟩
-    · intro hdr
-      exact hlastflag hdn (hnil hdr)
-    have hme : lastReg st.s.p.address d = lastReg (checkBusActivity st.s now (arrived cfg rs now).length).p.address d := by rw [f2]
-    rw [hme]
-    refine ⟨hon, hal, ?_, by show (checkBusActivity st.s now _).online = true; rw [f4]; exact hson,
-      by show aL ≠ (checkBusActivity st.s now _).p.address; rw [f2]; exact hne,
-      by show _ ≤ (checkBusActivity st.s now _).p.tokenLostTimeout; rw [f2]; exact htto,
-      by show hearAll aL (d.map Prod.fst) (checkBusActivity st.s now _).ring = _; rw [f3, hring, hearAll_append],
-      by rw [List.append_assoc, List.take_append_drop]; exact h1, ?_⟩
-    · obtain ⟨c', hc', hinv', -⟩ := pollInner_good { s := st.s, apps := st.apps, rx := arrived cfg rs now } now false hinv rfl
-      have : st.s.poll st.apps now false (arrived cfg rs now) = .ok c' := hc'
-      rw [hpoll] at this
-      cases this
-      exact hinv'
-    rw [getD_set_self b j now hjl]
-    refine ⟨?_, hb', Nat.zero_le _, fun t rest hrs => (hhead t rest hrs).1, rfl, Int.le_refl _, rfl, ?_⟩
-    · intro o ho
-      rcases List.mem_append.1 ho with ho | ho
-      · have := h2 o ho; omega
-      · have hfo := hfull o ho
-        have hpo := (hw o (List.mem_of_mem_take ho)).2.2
-        have := (cvis_spec cfg o now (o.bytes.length - 1) (by omega)).1 (by omega)
-        unfold cEnd; exact this
-    · show nextArr cfg H (rs.drop k) now < now + (((checkBusActivity st.s now _).p.tokenLostTimeout : Nat) : Int)
-      rw [f2]
-      cases hdr : rs.drop k with
-      | nil =>
-        unfold nextArr
-        simp only
-        have hrsk : rs.take k = rs := take_of_drop_nil rs k hdr
-        have hrsne : rs ≠ [] := by intro e; rw [e] at hk; simp only [List.length_nil] at hk; omega
-        obtain ⟨tl, htl⟩ : ∃ tl, rs.getLast? = some tl := by
-          cases hg : rs.getLast? with
-          | none => exact absurd (List.getLast?_eq_none_iff.1 hg) hrsne
-          | some tl => exact ⟨tl, rfl⟩
-        have hHb := hH tl (by rw [h1, List.getLast?_append, htl]; rfl)
-        have hmem : tl ∈ rs := List.mem_of_getLast? htl
-        have hfo := hfull tl (by rw [hrsk]; exact hmem)
-        have hpo := (hw tl hmem).2.2
-        have := (cvis_spec cfg tl now (tl.bytes.length - 1) (by omega)).1 (by omega)
-        unfold cEnd at hHb
-        omega
-      | cons t rest =>
-        have := nextArr_after cfg hr H t rest now (hhead t rest hdr).1
-          (hstart t (by rw [h1]; apply List.mem_append_right; apply List.mem_of_mem_drop (i := k); rw [hdr]; simp))
-        omega
-
-
 /-! ## Phase Q0: the request to the listener is on the bus, the listener has not registered it yet -/
-
-theorem LoneTel.regSr_none {aL me : Nat} {t : Telegram} (h : LoneTel aL me t) (hg : aL < 128) (fl : Bool) :
-    regSr me t fl = none := by
-  rcases h with rfl | ⟨g, hg', hgm, rfl⟩
-  · cases fl <;> rfl
-  · rw [regSr_req me g aL hg' hg]
-    exact if_neg (fun h => hgm h.2)
 
 /-- The GAP request of `x` (address `aL`) to the listener (address `aH`), sent at `r`. -/
 def rqTx (x aL aH : Nat) (r : Int) : Transmission :=
@@ -432,7 +22,7 @@ consumed yet, and was last polled before the end of the request. -/
 structure HQ0 (cfg : Cfg) (G : Nat) (n : Net) (x y : Nat) (stx sty : NetStation) (r : Int) (r0 : TokenRing)
     (hd : List Telegram) (dn rs : List Transmission) (lY : Int) (coll : Nat) (tl : Int) : Prop where
   solo : Solo cfg n x stx (r + (cfg.b66 : Nat))
-  stx_st : stx.s.st = .claimToken (.scanAwait sty.s.p.address)
+  stx_st : AwaitSt stx.s.st sty.s.p.address
   stx_gap : stx.s.gap = .doPoll sty.s.p.address
   logR : LoneLogR cfg stx.s.p.address x n.bus
   rsne : rs.getLast? = some (rqTx x stx.s.p.address sty.s.p.address r)
@@ -448,6 +38,7 @@ structure HQ0 (cfg : Cfg) (G : Nat) (n : Net) (x y : Nat) (stx sty : NetStation)
   pbx : stx.s.pendingBytes = 0
   starts : ∀ t ∈ n.bus.txs, t.start ≤ tl
   seens : n.bus.seen.getD x 0 ≤ tl ∧ n.bus.seen.getD y 0 ≤ tl
+  view : RingView [stx.s.p.address] stx.s.p.address stx.s.ring
 
 theorem mem_dropLast_cons {α : Type} (a t : α) (l : List α) (h : t ∈ l.dropLast) : t ∈ (a :: l).dropLast := by
   cases l with
@@ -482,15 +73,6 @@ theorem mem_dropLast_of_take {α : Type} (t : α) : ∀ (l : List α) (k : Nat),
         · exact List.mem_cons_self ..
         · exact List.mem_cons_of_mem _ (ih k hk' ht)
 
-theorem LLOkX.other {cfg : Cfg} {G aL : Nat} {b : Bus} {H : Int} {j : Nat} {st : NetStation} {r0 : TokenRing}
-    {hd : List Telegram} {sr : Option Nat} {dn rs : List Transmission} {l : Int} {coll : Nat}
-    (h : LLOkX cfg G aL b H j st r0 hd sr dn rs l coll) (i : Nat) (now : Int) (hij : i ≠ j) :
-    LLOkX cfg G aL { b with seen := b.seen.set i now } H j st r0 hd sr dn rs l coll := by
-  have e : ({ b with seen := b.seen.set i now } : Bus).seen.getD j 0 = b.seen.getD j 0 := seen_set_other b i j now hij
-  unfold LLOkX at h ⊢
-  rw [e]
-  exact h
-
 theorem cEnd_rq (cfg : Cfg) (x aL aH : Nat) (r : Int) : cEnd cfg (rqTx x aL aH r) = r + ((cfg.ce 5 : Nat) : Int) := by
   unfold cEnd rqTx
   simp only [statusRequestBytes_length]
@@ -506,7 +88,7 @@ theorem hq0_claimant {cfg : Cfg} {G : Nat} {n : Net} {x y : Nat} {stx sty : NetS
   have hc5 := cfg.ce5 hr
   have hs := h.solo
   have hearly := h.early
-  have hno : stx.s.st ≠ .offline ∧ stx.s.st ≠ .passiveIdle := by rw [h.stx_st]; simp
+  have hno : stx.s.st ≠ .offline ∧ stx.s.st ≠ .passiveIdle := h.stx_st.awake
   have hup : upSt stx { s := stx.s, apps := stx.apps, rx := [] } = stx := by unfold upSt; rw [← hs.rx]
   have hxy : x ≠ y := Ne.symm h.yx
   -- the poll
@@ -515,11 +97,8 @@ theorem hq0_claimant {cfg : Cfg} {G : Nat} {n : Net} {x y : Nat} {stx sty : NetS
     by_cases hle : now ≤ r + (cfg.b66 : Nat)
     · exact solo_ongoing hs hr now hown hle hno.1 hno.2
     · have hdw : dispatch { s := stx.s, apps := stx.apps, rx := [] } now = .ok { s := stx.s, apps := stx.apps, rx := [] } := by
-        unfold dispatch
-        simp only [h.stx_st]
-        rw [claimAwait_exact _ now (r + (cfg.b66 : Nat)) 1 sty.s.p.address h.stx_st rfl hs.stamp h.stx_gap
-          (hs.inv.await2 _ h.stx_st).2]
-        rw [if_neg (by rw [hs.slot]; omega)]
+        exact await_dispatch_partial _ now (r + (cfg.b66 : Nat)) sty.s.p.address [] false h.stx_st hs.stamp h.stx_gap
+          (AwaitSt.gapne hs.inv h.stx_st).2 receiveTelegram_nil (by rw [hs.slot]; omega)
       obtain ⟨n', hp, hS, hseen⟩ := solo_step hs hr now hown (by omega) _ hno.1 hno.2 hdw (r + (cfg.b66 : Nat)) hs.son rfl rfl
         hs.stamp (Int.le_refl _) (fun b hb => by cases hb)
       rw [hup] at hS
@@ -532,7 +111,7 @@ theorem hq0_claimant {cfg : Cfg} {G : Nat} {n : Net} {x y : Nat} {stx sty : NetS
   cases hst0
   rw [hup] at hset
   have hsy : n'.bus.seen.getD y 0 = n.bus.seen.getD y 0 := by rw [hbus]; exact seen_set_other n.bus x y now hxy
-  refine ⟨n', _, hp, rfl, ⟨hS, h.stx_st, h.stx_gap, ?_, h.rsne, h.others, ?_, h.yx, ?_, ?_, ?_, ?_, ?_, ?_, ?_, ?_⟩⟩
+  refine ⟨n', _, hp, rfl, ⟨hS, h.stx_st, h.stx_gap, ?_, h.rsne, h.others, ?_, h.yx, ?_, ?_, ?_, ?_, ?_, ?_, ?_, ?_, h.view⟩⟩
   · rw [hbus]
     exact ⟨h.logR.rate, h.logR.corrupt, h.logR.chained, h.logR.live, h.logR.own, h.logR.kinds⟩
   · rw [hset, List.getElem?_set_ne hxy]; exact h.gy
@@ -551,7 +130,7 @@ theorem hq0_claimant {cfg : Cfg} {G : Nat} {n : Net} {x y : Nat} {stx sty : NetS
 answer after the pause; the claimant still awaits the reply. -/
 structure HQ1 (cfg : Cfg) (n : Net) (x y : Nat) (stx sty : NetStation) (r h1 : Int) (coll : Nat) (tl : Int) : Prop where
   solo : Solo cfg n x stx (r + (cfg.b66 : Nat))
-  stx_st : stx.s.st = .claimToken (.scanAwait sty.s.p.address)
+  stx_st : AwaitSt stx.s.st sty.s.p.address
   stx_gap : stx.s.gap = .doPoll sty.s.p.address
   soloY : Solo cfg n y sty h1
   sty_st : sty.s.st = .listenToken (some stx.s.p.address) coll
@@ -563,6 +142,7 @@ structure HQ1 (cfg : Cfg) (n : Net) (x y : Nat) (stx sty : NetStation) (r h1 : I
   pbx : stx.s.pendingBytes = 0
   starts : ∀ t ∈ n.bus.txs, t.start ≤ tl
   seens : n.bus.seen.getD x 0 ≤ tl ∧ n.bus.seen.getD y 0 ≤ tl
+  view : RingView [stx.s.p.address] stx.s.p.address stx.s.ring
 
 /-- **Phase Q0, the listener is polled**: it consumes what has arrived; if the request has arrived completely it
 is registered (phase Q1), otherwise phase Q0 goes on. -/
@@ -640,7 +220,7 @@ theorem hq0_listener {cfg : Cfg} {G : Nat} {n : Net} {x y : Nat} {stx sty : NetS
     exact ⟨hsoloX, by rw [haddr]; exact h.stx_st, by rw [haddr]; exact h.stx_gap, hlogR', by rw [haddr]; exact hlast,
       by rw [haddr]; exact hoth, List.getElem?_set_self h.yl, h.yx, by simp only [List.length_set]; exact h.ys,
       by simp only [List.length_set]; exact h.yl, hX, hearly', by show c.s.p.rate = _ ∧ c.s.p.slotBits = _; rw [hp]; exact h.py,
-      h.pbx, fun t ht => Int.le_trans (h.starts t ht) htl, hseensNew⟩
+      h.pbx, fun t ht => Int.le_trans (h.starts t ht) htl, hseensNew, h.view⟩
   rcases hres with hX | ⟨k, d, hk1, hdm, hfl, hlastd, hX⟩
   · exact .inl ⟨hd, dn, rs, _, stillQ0 hd dn rs _ hX h.rsne h.others hcrs hposrs, rfl⟩
   · by_cases hdr : rs.drop k = []
@@ -670,7 +250,7 @@ theorem hq0_listener {cfg : Cfg} {G : Nat} {n : Net} {x y : Nat} {stx sty : NetS
         have := x8; simpa using this
       refine ⟨⟨hsoloX, by rw [haddr]; exact h.stx_st, by rw [haddr]; exact h.stx_gap, ?_, x15, h.yx, ?_,
         (by rw [seen_set_self _ _ _ h.ys]; omega), ?_, ?_, h.pbx,
-        fun t ht => Int.le_trans (h.starts t ht) htl, hseensNew⟩, by rw [x7, hdm, hrsk]⟩
+        fun t ht => Int.le_trans (h.starts t ht) htl, hseensNew, h.view⟩, by rw [x7, hdm, hrsk]⟩
       · refine ⟨hs.rate, hs.drops, hs.corrupt, hs.chained, hs.live, hs.pos, ?_, ?_, by simp only [List.length_set]; exact h.yl,
           by simp only [List.length_set]; exact h.ys, List.getElem?_set_self h.yl, x1, x2, x3, x4, ?_, x13,
           by show c.s.p.rate = _; rw [hp]; exact h.py.1, by show c.s.p.slotBits = _; rw [hp]; exact h.py.2⟩
@@ -758,7 +338,7 @@ theorem hq1_claimant {cfg : Cfg} {n : Net} {x y : Nat} {stx sty : NetStation} {r
   have hs := h.solo
   have hreg := h.reg
   have hyw := h.ywait
-  have hno : stx.s.st ≠ .offline ∧ stx.s.st ≠ .passiveIdle := by rw [h.stx_st]; simp
+  have hno : stx.s.st ≠ .offline ∧ stx.s.st ≠ .passiveIdle := h.stx_st.awake
   have hup : upSt stx { s := stx.s, apps := stx.apps, rx := [] } = stx := by unfold upSt; rw [← hs.rx]
   have hxy : x ≠ y := Ne.symm h.yx
   have hpoll : ∃ n', n.poll x now = (n', [], some (.ok { s := stx.s, apps := stx.apps, rx := [] })) ∧
@@ -766,11 +346,8 @@ theorem hq1_claimant {cfg : Cfg} {n : Net} {x y : Nat} {stx sty : NetStation} {r
     by_cases hle : now ≤ r + (cfg.b66 : Nat)
     · exact solo_ongoing hs hr now hown hle hno.1 hno.2
     · have hdw : dispatch { s := stx.s, apps := stx.apps, rx := [] } now = .ok { s := stx.s, apps := stx.apps, rx := [] } := by
-        unfold dispatch
-        simp only [h.stx_st]
-        rw [claimAwait_exact _ now (r + (cfg.b66 : Nat)) 1 sty.s.p.address h.stx_st rfl hs.stamp h.stx_gap
-          (hs.inv.await2 _ h.stx_st).2]
-        rw [if_neg (by rw [hs.slot]; omega)]
+        exact await_dispatch_partial _ now (r + (cfg.b66 : Nat)) sty.s.p.address [] false h.stx_st hs.stamp h.stx_gap
+          (AwaitSt.gapne hs.inv h.stx_st).2 receiveTelegram_nil (by rw [hs.slot]; omega)
       obtain ⟨n', hp, hS, hseen⟩ := solo_step hs hr now hown (by omega) _ hno.1 hno.2 hdw (r + (cfg.b66 : Nat)) hs.son rfl rfl
         hs.stamp (Int.le_refl _) (fun b hb => by cases hb)
       rw [hup] at hS
@@ -784,7 +361,7 @@ theorem hq1_claimant {cfg : Cfg} {n : Net} {x y : Nat} {stx sty : NetStation} {r
   rw [hup] at hset
   have hsy : n'.bus.seen.getD y 0 = n.bus.seen.getD y 0 := by rw [hbus]; exact seen_set_other n.bus x y now hxy
   have hsY := h.soloY
-  refine ⟨n', _, hp, rfl, ⟨hS, h.stx_st, h.stx_gap, ?_, h.sty_st, h.yx, h.reg, by rw [hsy]; exact hyw, h.tto, ?_, h.pbx, ?_, ?_⟩⟩
+  refine ⟨n', _, hp, rfl, ⟨hS, h.stx_st, h.stx_gap, ?_, h.sty_st, h.yx, h.reg, by rw [hsy]; exact hyw, h.tto, ?_, h.pbx, ?_, ?_, h.view⟩⟩
   · exact hsY.otherPoll x now stx hxy hbus hset
   · rw [hbus]; exact h.allx
   · rw [hbus]; exact fun t ht => Int.le_trans (h.starts t ht) htl
@@ -798,16 +375,15 @@ incomplete, and the next character arrives before its slot time runs out. -/
 structure HQ2 (cfg : Cfg) (n : Net) (x y : Nat) (stx sty : NetStation) (r q : Int) (state : ResponseState) (lX : Int)
     (coll : Nat) (tl : Int) : Prop where
   soloY : Solo cfg n y sty (q + (cfg.b66 : Nat))
-  sty_st : sty.s.st = .listenToken none coll
+  sty_st : sty.s.st = .listenToken none coll ∨ sty.s.st = .activeIdle none none 0
   qtl : q ≤ tl
   tto : cfg.slot + 3 * cfg.P + cfg.ce 0 + 2 ≤ sty.s.p.tokenLostTimeout
-  nadm : ¬ Admits state .ok
   gx : n.stations[x]? = some stx
   xl : x < n.stations.length
   xs : x < n.bus.seen.length
   xon : stx.online = true ∧ stx.dead = false ∧ Inv stx.s stx.apps ∧ stx.s.online = true ∧
     stx.s.p.rate = cfg.rate ∧ stx.s.p.slotBits = cfg.slotBits
-  stx_st : stx.s.st = .claimToken (.scanAwait sty.s.p.address)
+  stx_st : AwaitSt stx.s.st sty.s.p.address
   stx_gap : stx.s.gap = .doPoll sty.s.p.address
   yx : y ≠ x
   split : ∃ dnx, n.bus.txs = dnx ++ [rpTx y stx.s.p.address sty.s.p.address state q] ∧
@@ -824,6 +400,7 @@ structure HQ2 (cfg : Cfg) (n : Net) (x y : Nat) (stx sty : NetStation) (r q : In
     lX + (cfg.slot : Nat)
   starts : ∀ t ∈ n.bus.txs, t.start ≤ tl
   seens : n.bus.seen.getD x 0 ≤ tl ∧ n.bus.seen.getD y 0 ≤ tl
+  view : RingView [stx.s.p.address] stx.s.p.address stx.s.ring
 
 theorem tokenLost_false (s : Station) (now l : Int) (hl : s.lastBusActivity = some l) (h1 : l ≤ now)
     (h2 : now < l + (s.p.tokenLostTimeout : Nat)) : ¬ TokenLost s now := by
@@ -837,7 +414,7 @@ poll after it, it sends the status reply (phase Q2). -/
 theorem hq1_listener {cfg : Cfg} {n : Net} {x y : Nat} {stx sty : NetStation} {r h1 : Int} {coll : Nat} {tl : Int}
     (h : HQ1 cfg n x y stx sty r h1 coll tl) (hok : cfg.Ok) (now : Int) (htl : tl ≤ now)
     (hown : n.bus.seen.getD y 0 < now) (hgy : now ≤ n.bus.seen.getD y 0 + (cfg.P : Nat))
-    (hnr : sty.s.ring.readyForRing = false) :
+    :
     ∃ n' c, n.poll y now = (n', [], some (.ok c)) ∧
       ((c.tx = none ∧ upSt sty c = sty ∧ HQ1 cfg n' x y stx (upSt sty c) r h1 coll now) ∨
        (c.tx = some (statusResponseBytes stx.s.p.address sty.s.p.address (listenReport sty.s stx.s.p.address)) ∧
@@ -882,7 +459,7 @@ theorem hq1_listener {cfg : Cfg} {n : Net} {x y : Nat} {stx sty : NetStation} {r
     exact ⟨hs.otherPoll y now sty h.yx hbus hset, h.stx_st, h.stx_gap, hS, h.sty_st, h.yx, h.reg,
       by rw [hseen]; omega, h.tto, by rw [hbus]; exact h.allx, h.pbx,
       by rw [hbus]; exact fun t ht => Int.le_trans (h.starts t ht) htl,
-      by rw [hseen, hsxx]; exact ⟨Int.le_trans h.seens.1 htl, Int.le_refl _⟩⟩
+      by rw [hseen, hsxx]; exact ⟨Int.le_trans h.seens.1 htl, Int.le_refl _⟩, h.view⟩
   · -- the reply
     have hdr : dispatch { s := sty.s, apps := sty.apps, rx := [] } now = .ok
         { s := { (markTx (StationGap.stamped sty.s now) now 6) with
@@ -902,8 +479,12 @@ theorem hq1_listener {cfg : Cfg} {n : Net} {x y : Nat} {stx sty : NetStation} {r
     obtain ⟨cR, hdr', k1, k2, k3, k4, k5, k6⟩ : ∃ cR : Ctx, dispatch { s := sty.s, apps := sty.apps, rx := [] } now = .ok cR ∧
         cR.s.online = true ∧ cR.s.p = sty.s.p ∧ cR.rx = [] ∧ cR.s.lastBusActivity = some (now + (cfg.b66 : Nat)) ∧
         cR.tx = some (statusResponseBytes stx.s.p.address sty.s.p.address (listenReport sty.s stx.s.p.address)) ∧
-        cR.s.st = .listenToken none coll :=
-      ⟨_, hdr, hsY.son, rfl, rfl, hst', rfl, by show (if sty.s.ring.readyForRing = true then _ else _) = _; rw [hnr]; rfl⟩
+        (cR.s.st = .listenToken none coll ∨ cR.s.st = .activeIdle none none 0) :=
+      ⟨_, hdr, hsY.son, rfl, rfl, hst', rfl, by
+        show (if sty.s.ring.readyForRing = true then _ else _) = _ ∨ (if sty.s.ring.readyForRing = true then _ else _) = _
+        cases sty.s.ring.readyForRing
+        · exact .inl rfl
+        · exact .inr rfl⟩
     obtain ⟨n', hp, hS, hseen⟩ := solo_step hsY hr now hown hlt cR hno.1 hno.2 hdr' (now + (cfg.b66 : Nat)) k1 k2 k3 k4
       (by omega) (fun b hb => by
         rw [k5] at hb
@@ -930,15 +511,11 @@ theorem hq1_listener {cfg : Cfg} {n : Net} {x y : Nat} {stx sty : NetStation} {r
       simp only
       have := h.seens.1
       omega
-    have hnadm : ¬ Admits (listenReport sty.s stx.s.p.address) .ok := by
-      unfold listenReport Admits
-      rw [hnr]
-      simp
-    refine ⟨hS, k6, Int.le_refl _, by show _ ≤ cR.s.p.tokenLostTimeout; rw [k2]; exact htto, hnadm,
+    refine ⟨hS, k6, Int.le_refl _, by show _ ≤ cR.s.p.tokenLostTimeout; rw [k2]; exact htto,
       by rw [hset, List.getElem?_set_ne h.yx]; exact hs.gx, by rw [hset, List.length_set]; exact hs.xl,
       by rw [hbus, e4]; simp only [List.length_set]; exact hs.xs,
       ⟨hs.online, hs.alive, hs.inv, hs.son, hs.prate, hs.pslot⟩, by rw [haddrY]; exact h.stx_st, by rw [haddrY]; exact h.stx_gap,
-      h.yx, ?_, ?_, ?_, ?_, hs.stamp, Int.le_refl _, by omega, by omega, .inl rfl, ?_, ?_, ?_⟩
+      h.yx, ?_, ?_, ?_, ?_, hs.stamp, Int.le_refl _, by omega, by omega, .inl rfl, ?_, ?_, ?_, h.view⟩
     · rw [haddrY]
       refine ⟨old', by rw [hbus, e1]; rfl, ?_⟩
       intro o ho
@@ -960,32 +537,6 @@ theorem hq1_listener {cfg : Cfg} {n : Net} {x y : Nat} {stx sty : NetStation} {r
     · rw [hseen, hsxx]; exact ⟨Int.le_trans h.seens.1 htl, Int.le_refl _⟩
 
 /-! ### The claimant while the reply arrives -/
-
-/-- Waiting for the reply with an incomplete telegram in the buffer, slot time not run out. -/
-theorem claimAwait_partial (c : Ctx) (now l : Int) (fuel a : Nat) (rx' : Bytes) (ret : Bool)
-    (hst : c.s.st = .claimToken (.scanAwait a)) (hl : c.s.lastBusActivity = some l) (hg : c.s.gap = .doPoll a)
-    (hne : a ≠ c.s.p.address) (hrx : receiveTelegram c.rx = .done rx' [] ret) (hw : now ≤ l + (c.s.p.slotTime : Nat)) :
-    doClaimToken c now (fuel + 1) = .ok { c with rx := rx' } := by
-  have hag := StationGap.awaitGap_silent c now a rx' ret hne hg hrx
-  rw [stamped_of_some c.s now l hl, checkSlot_some _ _ _ hl] at hag
-  have hc : ({ c with rx := rx', s := c.s } : Ctx) = { c with rx := rx' } := rfl
-  rw [hc] at hag
-  conv => lhs; unfold doClaimToken
-  simp only [hst, hag]
-  have hx : ¬ now > l + (c.s.p.slotTime : Nat) := by omega
-  simp only [hx, decide_false, if_false, Bool.false_eq_true]
-
-/-- The reply of the polled station arrives and does not admit it (not ready): the scan goes on. -/
-theorem claimAwait_reply (c : Ctx) (now : Int) (fuel a : Nat) (rx' : Bytes) (t : Telegram) (fl ret : Bool)
-    (rest : List (Telegram × Bool)) (state : ResponseState) (status : ResponseStatus)
-    (hst : c.s.st = .claimToken (.scanAwait a)) (hg : c.s.gap = .doPoll a) (hne : a ≠ c.s.p.address)
-    (hrx : receiveTelegram c.rx = .done rx' ((t, fl) :: rest) ret)
-    (hr : replyOf c.s.p.address a t = some (state, status)) (hna : ¬ Admits state status) :
-    doClaimToken c now (fuel + 1) =
-      .ok { c with rx := rx', s := { (markRx c.s now) with st := .claimToken .scan } } := by
-  have hag := awaitGap_other c now a rx' t fl ret rest state status hne hg hrx hr hna
-  conv => lhs; unfold doClaimToken
-  simp only [hst, hag, upd]
 
 /-- The status reply as a telegram. -/
 def rpTel (aL aH : Nat) (state : ResponseState) : Telegram :=
@@ -1036,7 +587,11 @@ theorem hq2_listener {cfg : Cfg} {n : Net} {x y : Nat} {stx sty : NetStation} {r
       have := (cvis_spec cfg (rpTx y stx.s.p.address sty.s.p.address state q) (n.bus.seen.getD x 0) 5
         (by rw [rpTx_len]; omega)).2 h'
       omega
-  obtain ⟨n', c, hp, htx, hS, hseen⟩ := lone_listen_wait hsY hok coll h.sty_st now hown (by omega)
+  obtain ⟨n', c, hp, htx, hS, hseen⟩ : ∃ n' c, n.poll y now = (n', [], some (.ok c)) ∧ c.tx = none ∧
+      Solo cfg n' y sty (q + (cfg.b66 : Nat)) ∧ n'.bus.seen.getD y 0 = now := by
+    rcases h.sty_st with e | e
+    · exact lone_listen_wait hsY hok coll e now hown (by omega)
+    · exact lone_idle_wait hsY hok none 0 e now hown (by omega)
   obtain ⟨hbus, st0, hst0, hset, -⟩ := Net.poll_bus n y now n' [] c hp
   rw [htx, hsY.deliver hr now (Int.le_of_lt hown)] at hbus
   simp only at hbus
@@ -1044,29 +599,31 @@ theorem hq2_listener {cfg : Cfg} {n : Net} {x y : Nat} {stx sty : NetStation} {r
   cases hst0
   have hxy : x ≠ y := Ne.symm h.yx
   have hsxx : n'.bus.seen.getD x 0 = n.bus.seen.getD x 0 := by rw [hbus]; exact seen_set_other n.bus y x now h.yx
-  refine ⟨n', c, hp, htx, hS, h.sty_st, Int.le_trans h.qtl htl, h.tto, h.nadm,
+  refine ⟨n', c, hp, htx, hS, h.sty_st, Int.le_trans h.qtl htl, h.tto,
     by rw [hset, List.getElem?_set_ne h.yx]; exact h.gx, by rw [hset, List.length_set]; exact h.xl,
     by rw [hbus]; simp only [List.length_set]; exact h.xs, h.xon, h.stx_st, h.stx_gap, h.yx,
     by rw [hbus]; exact h.split, by rw [hsxx]; exact h.rxX, by rw [hsxx]; exact h.pendX, by rw [hsxx]; exact h.headX,
     h.stampX, h.lXge, h.qlate, h.qearly, by rw [hsxx]; exact h.pbok, by rw [hsxx]; exact h.slotok,
     by rw [hbus]; exact fun t ht => Int.le_trans (h.starts t ht) htl,
-    by rw [hseen, hsxx]; exact ⟨Int.le_trans h.seens.1 htl, Int.le_refl _⟩⟩
+    by rw [hseen, hsxx]; exact ⟨Int.le_trans h.seens.1 htl, Int.le_refl _⟩, h.view⟩
 
 /-- **Reply received**: the claimant `x` has consumed the (non-admitting) reply and goes on with its GAP scan; the
 listener `y` listens again; both are up to date with the log, whose last entry is the reply. -/
-structure HQ3 (cfg : Cfg) (n : Net) (x y : Nat) (stx sty : NetStation) (q lx : Int) (coll : Nat) : Prop where
+structure HQ3 (cfg : Cfg) (n : Net) (x y : Nat) (stx sty : NetStation) (q lx : Int) (coll : Nat) (state : ResponseState) : Prop where
   soloX : Solo cfg n x stx lx
   soloY : Solo cfg n y sty (q + (cfg.b66 : Nat))
-  stx_st : stx.s.st = .claimToken .scan
+  stx_st : stx.s.st = .claimToken .scan ∨ stx.s.st = .passToken false .first
   stx_gap : stx.s.gap = .doPoll sty.s.p.address
-  sty_st : sty.s.st = .listenToken none coll
+  sty_st : sty.s.st = .listenToken none coll ∨ sty.s.st = .activeIdle none none 0
   yx : y ≠ x
-  last : ∃ dnx state, n.bus.txs = dnx ++ [rpTx y stx.s.p.address sty.s.p.address state q] ∧
-    (∀ o ∈ dnx, o.sender = x) ∧ ¬ Admits state .ok
+  last : ∃ dnx, n.bus.txs = dnx ++ [rpTx y stx.s.p.address sty.s.p.address state q] ∧
+    (∀ o ∈ dnx, o.sender = x) ∧
+    (Admits state .ok → stx.s.ring.ns = sty.s.p.address ∧ stx.s.ring.isActive sty.s.p.address = true ∧
+      ∀ M', IsRing M' → (∀ z, z ∈ M' ↔ z = sty.s.p.address ∨ z = stx.s.p.address) → RingView M' stx.s.p.address stx.s.ring)
 
 /-- The claimant's context after consuming a non-admitting reply. -/
-def replyCtx (s : Station) (apps : Apps) (now : Int) : Ctx :=
-  { s := { (markRx s now) with st := .claimToken .scan }, apps := apps, rx := [] }
+def replyCtxG (s : Station) (apps : Apps) (now : Int) (rg : TokenRing) : Ctx :=
+  { s := { (markRx s now) with ring := rg, st := afterAwait s.st }, apps := apps, rx := [] }
 
 theorem markRx_stamp (s : Station) (now l : Int) (hl : s.lastBusActivity = some l) (hle : l ≤ now) :
     (markRx s now).lastBusActivity = some now := by
@@ -1081,7 +638,7 @@ theorem hq2_claimant {cfg : Cfg} {n : Net} {x y : Nat} {stx sty : NetStation} {r
     (hown : n.bus.seen.getD x 0 < now) :
     ∃ n' inc c, n.poll x now = (n', inc, some (.ok c)) ∧ c.tx = none ∧ c.s.p = stx.s.p ∧
       ((∃ lX', HQ2 cfg n' x y (upSt stx c) sty r q state lX' coll now) ∨
-       (q + ((cfg.ce 5 : Nat) : Int) ≤ now ∧ HQ3 cfg n' x y (upSt stx c) sty q now coll)) := by
+       (q + ((cfg.ce 5 : Nat) : Int) ≤ now ∧ HQ3 cfg n' x y (upSt stx c) sty q now coll state)) := by
   have hr := hok.rate
   have hmar := hok.margin
   have hc5 := cfg.ce5 hr
@@ -1094,7 +651,7 @@ theorem hq2_claimant {cfg : Cfg} {n : Net} {x y : Nat} {stx sty : NetStation} {r
   have hxy : x ≠ y := Ne.symm h.yx
   have haL : stx.s.p.address < 126 := by have := hinv.addr; have := hinv.hsa; omega
   have haH : sty.s.p.address < 126 := by have := hinv.gap _ h.stx_gap; have := hinv.hsa; omega
-  have hneA : sty.s.p.address ≠ stx.s.p.address := (hinv.await2 _ h.stx_st).2
+  have hneA : sty.s.p.address ≠ stx.s.p.address := (AwaitSt.gapne hinv h.stx_st).2
   have hslotT : stx.s.p.slotTime = cfg.slot := by
     unfold Params.slotTime Cfg.slot Params.bits; rw [hprate, hpslot]
   obtain ⟨rp, hrp⟩ : ∃ rp, rp = rpTx y stx.s.p.address sty.s.p.address state q := ⟨_, rfl⟩
@@ -1149,7 +706,7 @@ theorem hq2_claimant {cfg : Cfg} {n : Net} {x y : Nat} {stx sty : NetStation} {r
     simp only [List.map_cons, List.map_nil, List.flatten_cons, List.flatten_nil, List.append_nil]
   have hlate : ∀ l0, stx.s.lastBusActivity = some l0 → l0 < now := by
     intro l0 hl0; rw [h.stampX] at hl0; cases hl0; rcases h.pbok with e | e <;> omega
-  have hno : stx.s.st ≠ .offline ∧ stx.s.st ≠ .passiveIdle := by rw [h.stx_st]; simp
+  have hno : stx.s.st ≠ .offline ∧ stx.s.st ≠ .passiveIdle := h.stx_st.awake
   obtain ⟨f1, f2, f3, f4, f5, -⟩ := checkBA_fields stx.s now (arrived cfg [rp] now).length
   have hpd := poll_dispatch stx.s stx.apps now (arrived cfg [rp] now) hson hno.1 hno.2 hlate
   obtain ⟨l1, hl1, hle1, hcase⟩ := checkBA_stamp stx.s now (arrived cfg [rp] now).length hlate (.inr ⟨lX, h.stampX⟩)
@@ -1195,13 +752,11 @@ theorem hq2_claimant {cfg : Cfg} {n : Net} {x y : Nat} {stx sty : NetStation} {r
           omega
         omega
     have hd : dispatch { s := checkBusActivity stx.s now (arrived cfg [rp] now).length, apps := stx.apps, rx := arrived cfg [rp] now } now = .ok { s := checkBusActivity stx.s now (arrived cfg [rp] now).length, apps := stx.apps, rx := arrived cfg [rp] now } := by
-      unfold dispatch
-      simp only [f1, h.stx_st]
-      rw [claimAwait_partial _ now l1 1 sty.s.p.address (arrived cfg [rp] now) false
-        (by show (checkBusActivity stx.s now _).st = _; rw [f1]; exact h.stx_st) hl1
+      exact await_dispatch_partial _ now l1 sty.s.p.address (arrived cfg [rp] now) false
+        (by show AwaitSt (checkBusActivity stx.s now _).st _; rw [f1]; exact h.stx_st) hl1
         (by show (checkBusActivity stx.s now _).gap = _; rw [f5]; exact h.stx_gap)
         (by show _ ≠ (checkBusActivity stx.s now _).p.address; rw [f2]; exact hneA) hrec
-        (by show now ≤ l1 + (((checkBusActivity stx.s now _).p.slotTime : Nat) : Int); rw [f2, hslotT]; exact hw_slot.1)]
+        (by show now ≤ l1 + (((checkBusActivity stx.s now _).p.slotTime : Nat) : Int); rw [f2, hslotT]; exact hw_slot.1)
     rw [hpd, hd] at hc''
     cases hc''
     have hpoll : stx.s.poll stx.apps now (Bus.transmitting { n.bus with seen := n.bus.seen.set x now } x now) (stx.rx ++ inc) =
@@ -1218,17 +773,17 @@ theorem hq2_claimant {cfg : Cfg} {n : Net} {x y : Nat} {stx sty : NetStation} {r
     have hlenle : (arrived cfg [rp] (n.bus.seen.getD x 0)).length ≤ (arrived cfg [rp] now).length := by
       rw [← hcat, List.length_append]; omega
     refine ⟨n', inc, _, hpe', rfl, f2, .inl ⟨l1, ?_⟩⟩
-    refine ⟨hsY.otherPoll x now _ hxy hbus hstn, h.sty_st, Int.le_trans h.qtl htl, h.tto, h.nadm,
+    refine ⟨hsY.otherPoll x now _ hxy hbus hstn, h.sty_st, Int.le_trans h.qtl htl, h.tto,
       by rw [hstn]; exact List.getElem?_set_self h.xl, by rw [hstn, List.length_set]; exact h.xl,
       by rw [hbus]; simp only [List.length_set]; exact h.xs,
       ⟨hon, hal, hinv', by show (checkBusActivity stx.s now _).online = true; rw [f4]; exact hson,
         by show (checkBusActivity stx.s now _).p.rate = _; rw [f2]; exact hprate,
         by show (checkBusActivity stx.s now _).p.slotBits = _; rw [f2]; exact hpslot⟩,
-      by show (checkBusActivity stx.s now _).st = _; rw [f1]; exact h.stx_st,
+      by show AwaitSt (checkBusActivity stx.s now _).st _; rw [f1]; exact h.stx_st,
       by show (checkBusActivity stx.s now _).gap = _; rw [f5]; exact h.stx_gap, h.yx,
       ⟨dnx, by rw [haddr, hbus]; exact htxs0, hdnx⟩, ?_, ?_, ?_, hl1, hl1ge, h.qlate, h.qearly, .inr (by rw [hseen]; exact hle1), ?_,
       by rw [hbus]; exact fun t ht => Int.le_trans (h.starts t ht) htl,
-      by rw [hseen, hsy]; exact ⟨Int.le_refl _, Int.le_trans h.seens.2 htl⟩⟩
+      by rw [hseen, hsy]; exact ⟨Int.le_refl _, Int.le_trans h.seens.2 htl⟩, (by show RingView [(checkBusActivity stx.s now _).p.address] (checkBusActivity stx.s now _).p.address (checkBusActivity stx.s now _).ring; rw [f3, f2]; exact h.view)⟩
     · rw [haddr, hseen, ← hrp]; rfl
     · rw [haddr, hseen, ← hrp]
       show (checkBusActivity stx.s now _).pendingBytes ≤ _
@@ -1249,25 +804,42 @@ theorem hq2_claimant {cfg : Cfg} {n : Net} {x y : Nat} {stx sty : NetStation} {r
     have hqe : q + ((cfg.ce 5 : Nat) : Int) ≤ now := by
       have := (cvis_spec cfg rp now 5 (by rw [hlen]; omega)).1 (by omega)
       omega
-    have hd : dispatch { s := checkBusActivity stx.s now (arrived cfg [rp] now).length, apps := stx.apps, rx := arrived cfg [rp] now } now = .ok (replyCtx (checkBusActivity stx.s now (arrived cfg [rp] now).length) stx.apps now) := by
-      unfold dispatch
-      simp only [f1, h.stx_st]
-      rw [claimAwait_reply _ now 1 sty.s.p.address [] (rpTel stx.s.p.address sty.s.p.address state) _ true [] state .ok
-        (by show (checkBusActivity stx.s now _).st = _; rw [f1]; exact h.stx_st)
-        (by show (checkBusActivity stx.s now _).gap = _; rw [f5]; exact h.stx_gap)
-        (by show _ ≠ (checkBusActivity stx.s now _).p.address; rw [f2]; exact hneA) hrec
-        (by show replyOf (checkBusActivity stx.s now _).p.address _ _ = _; rw [f2];
-            exact replyOf_rpTel _ _ state (by omega) (by omega)) h.nadm]
-      rfl
-    obtain ⟨cR, hdr, k1, k2, k3, k4, k5, k6, k7⟩ : ∃ cR : Ctx, dispatch { s := checkBusActivity stx.s now (arrived cfg [rp] now).length, apps := stx.apps, rx := arrived cfg [rp] now } now = .ok cR ∧ cR.s.online = true ∧ cR.s.p = stx.s.p ∧ cR.rx = [] ∧
-        cR.s.lastBusActivity = some now ∧ cR.tx = none ∧ cR.s.st = .claimToken .scan ∧ cR.s.gap = stx.s.gap := by
-      refine ⟨_, hd, ?_, ?_, rfl, ?_, rfl, rfl, ?_⟩
+    obtain ⟨rg, hrgA, hd⟩ : ∃ rg : TokenRing, (Admits state .ok → rg.ns = sty.s.p.address ∧ rg.isActive sty.s.p.address = true ∧
+          ∀ M', IsRing M' → (∀ z, z ∈ M' ↔ z = sty.s.p.address ∨ z = stx.s.p.address) → RingView M' stx.s.p.address rg) ∧
+        dispatch { s := checkBusActivity stx.s now (arrived cfg [rp] now).length, apps := stx.apps, rx := arrived cfg [rp] now } now = .ok (replyCtxG (checkBusActivity stx.s now (arrived cfg [rp] now).length) stx.apps now rg) := by
+      have hstC : AwaitSt (checkBusActivity stx.s now (arrived cfg [rp] now).length).st sty.s.p.address := by rw [f1]; exact h.stx_st
+      have hgC : (checkBusActivity stx.s now (arrived cfg [rp] now).length).gap = .doPoll sty.s.p.address := by rw [f5]; exact h.stx_gap
+      have hneC : sty.s.p.address ≠ (checkBusActivity stx.s now (arrived cfg [rp] now).length).p.address := by rw [f2]; exact hneA
+      have hrC : replyOf (checkBusActivity stx.s now (arrived cfg [rp] now).length).p.address sty.s.p.address
+          (rpTel stx.s.p.address sty.s.p.address state) = some (state, .ok) := by
+        rw [f2]; exact replyOf_rpTel _ _ state (by omega) (by omega)
+      by_cases hadm : Admits state .ok
+      · obtain ⟨rr, h1, h2, h3, h4, h5, h6⟩ := await_dispatch_admit { s := checkBusActivity stx.s now (arrived cfg [rp] now).length, apps := stx.apps, rx := arrived cfg [rp] now } now sty.s.p.address [] (rpTel stx.s.p.address sty.s.p.address state) _ true [] state hstC hgC hneC hrec hrC hadm.2 (by omega)
+          (by show (checkBusActivity stx.s now _).ring.ts = (checkBusActivity stx.s now _).p.address; rw [f3, f2]; exact h.view.ts)
+          (by show (checkBusActivity stx.s now _).p.address < 128; rw [f2]; omega)
+        have h1' : (checkBusActivity stx.s now (arrived cfg [rp] now).length).ring.setNextStation sty.s.p.address = some rr := h1
+        rw [f3] at h1'
+        refine ⟨rr, fun _ => ⟨h2, h5, ?_⟩, h6⟩
+        intro M' hM' hmem
+        have hbt : Between stx.s.p.address (cycSucc stx.s.p.address [stx.s.p.address]) sty.s.p.address := by
+          rw [cycSucc_single]; unfold Between; exact ⟨hneA, by simp⟩
+        have vk := AbstractRing.viewOk_setNext [stx.s.p.address] M' stx.s.p.address sty.s.p.address stx.s.ring rr
+          ⟨h.view.ts, h.view.valid, h.view.las, h.view.nbr⟩ (List.mem_singleton.2 rfl) hbt
+          (fun z => by rw [hmem z]; simp) h1'
+        exact ⟨hM', (hmem _).2 (.inr rfl), vk.ts, vk.valid, vk.las, vk.nbr⟩
+      · refine ⟨(checkBusActivity stx.s now (arrived cfg [rp] now).length).ring, fun hh => absurd hh hadm, ?_⟩
+        exact await_dispatch_reply { s := checkBusActivity stx.s now (arrived cfg [rp] now).length, apps := stx.apps, rx := arrived cfg [rp] now } now sty.s.p.address [] (rpTel stx.s.p.address sty.s.p.address state) _ true [] state .ok hstC hgC hneC hrec hrC hadm
+    obtain ⟨cR, hdr, k1, k2, k3, k4, k5, k6, k7, k8⟩ : ∃ cR : Ctx, dispatch { s := checkBusActivity stx.s now (arrived cfg [rp] now).length, apps := stx.apps, rx := arrived cfg [rp] now } now = .ok cR ∧ cR.s.online = true ∧ cR.s.p = stx.s.p ∧ cR.rx = [] ∧
+        cR.s.lastBusActivity = some now ∧ cR.tx = none ∧ cR.s.st = afterAwait stx.s.st ∧ cR.s.gap = stx.s.gap ∧ cR.s.ring = rg := by
+      refine ⟨_, hd, ?_, ?_, rfl, ?_, rfl, ?_, ?_, rfl⟩
       · show (markRx (checkBusActivity stx.s now _) now).online = true
         unfold markRx markBusActivity; exact f4.trans hson
       · show (markRx (checkBusActivity stx.s now _) now).p = _
         unfold markRx markBusActivity; exact f2
       · show (markRx (checkBusActivity stx.s now _) now).lastBusActivity = _
         exact markRx_stamp _ now l1 hl1 hle1
+      · show afterAwait (checkBusActivity stx.s now _).st = _
+        rw [f1]
       · show (markRx (checkBusActivity stx.s now _) now).gap = _
         unfold markRx markBusActivity; exact f5
     rw [hpd, hdr] at hc''
@@ -1283,8 +855,16 @@ theorem hq2_claimant {cfg : Cfg} {n : Net} {x y : Nat} {stx sty : NetStation} {r
     have hseen : n'.bus.seen.getD x 0 = now := by rw [hbus]; exact seen_set_self _ _ _ h.xs
     have haddr : (upSt stx cR).s.p.address = stx.s.p.address := by show cR.s.p.address = _; rw [k2]
     refine ⟨n', inc, cR, hpe', k5, k2, .inr ⟨hqe, ?_⟩⟩
-    refine ⟨?_, hsY.otherPoll x now _ hxy hbus hstn, k6, by show cR.s.gap = _; rw [k7]; exact h.stx_gap, h.sty_st, h.yx,
-      ⟨dnx, state, by rw [haddr, hbus]; exact htxs0, fun o ho => (hdnx o ho).1, h.nadm⟩⟩
+    have hst3 : cR.s.st = .claimToken .scan ∨ cR.s.st = .passToken false .first := by
+      rw [k6]
+      rcases h.stx_st with e | e <;> rw [e]
+      · exact .inl rfl
+      · exact .inr rfl
+    refine ⟨?_, hsY.otherPoll x now _ hxy hbus hstn, hst3, by show cR.s.gap = _; rw [k7]; exact h.stx_gap, h.sty_st, h.yx,
+      ⟨dnx, by rw [haddr, hbus]; exact htxs0, fun o ho => (hdnx o ho).1,
+        fun ha => by
+          show cR.s.ring.ns = _ ∧ cR.s.ring.isActive _ = true ∧ ∀ M', IsRing M' → _ → RingView M' (upSt stx cR).s.p.address cR.s.ring
+          rw [k8, haddr]; exact hrgA ha⟩⟩
     refine ⟨by rw [hbus]; exact hsY.rate, by rw [hbus]; exact hsY.drops, by rw [hbus]; exact hsY.corrupt,
       by rw [hbus]; exact hsY.chained, by rw [hbus]; exact hsY.live, by rw [hbus]; exact hsY.pos, ?_, ?_,
       by rw [hstn, List.length_set]; exact h.xl, by rw [hbus]; simp only [List.length_set]; exact h.xs,
@@ -1322,39 +902,43 @@ theorem listenReport_notReady (s : Station) (src : Nat) (h : s.ring.readyForRing
 /-- The three phases of an answered GAP request; `T`: everything the listener will have heard when it registers the
 request. -/
 def HQ (cfg : Cfg) (G : Nat) (n : Net) (x y : Nat) (stx sty : NetStation) (r : Int) (r0 : TokenRing) (T : List Telegram)
-    (coll : Nat) (tl : Int) : Prop :=
+    (state : ResponseState) (coll : Nat) (tl : Int) : Prop :=
   (∃ hd dn rs lY, HQ0 cfg G n x y stx sty r r0 hd dn rs lY coll tl ∧ hd ++ rs.map telOf = T) ∨
-  (∃ h1, HQ1 cfg n x y stx sty r h1 coll tl ∧ sty.s.ring.readyForRing = false) ∨
-  (∃ q state lX, HQ2 cfg n x y stx sty r q state lX coll tl)
+  (∃ h1, HQ1 cfg n x y stx sty r h1 coll tl ∧ listenReport sty.s stx.s.p.address = state) ∨
+  (∃ q lX, HQ2 cfg n x y stx sty r q state lX coll tl)
 
 theorem HQ.info {cfg : Cfg} {G : Nat} {n : Net} {x y : Nat} {stx sty : NetStation} {r : Int} {r0 : TokenRing}
-    {T : List Telegram} {coll : Nat} {tl : Int} (h : HQ cfg G n x y stx sty r r0 T coll tl) :
+    {T : List Telegram} {state : ResponseState} {coll : Nat} {tl : Int} (h : HQ cfg G n x y stx sty r r0 T state coll tl) :
     n.stations[x]? = some stx ∧ n.stations[y]? = some sty ∧ x < n.stations.length ∧ y < n.stations.length ∧ y ≠ x := by
-  rcases h with ⟨hd, dn, rs, lY, h, -⟩ | ⟨h1, h, -⟩ | ⟨q, state, lX, h⟩
+  rcases h with ⟨hd, dn, rs, lY, h, -⟩ | ⟨h1, h, -⟩ | ⟨q, lX, h⟩
   · exact ⟨h.solo.gx, h.gy, h.solo.xl, h.yl, h.yx⟩
   · exact ⟨h.solo.gx, h.soloY.gx, h.solo.xl, h.soloY.xl, h.yx⟩
   · exact ⟨h.gx, h.soloY.gx, h.xl, h.soloY.xl, h.yx⟩
 
-/-- Run from the GAP request to the reception of the reply: the listener `y` transmits nothing but the reply "not
-ready"; the claimant `x` transmits nothing; `x` has consumed the reply by `B`. -/
-def RplRun (cfg : Cfg) (x y aL aH : Nat) (B : Int) : Net → List (Nat × Int) → Prop
+/-- Run from the GAP request to the reception of the reply: the listener `y` transmits nothing but the reply with the
+report `state`; the requester `x` transmits nothing; `x` has consumed the reply by `B` (`HQ3`: if the report admits
+the listener, it is `x`'s next station and `x`'s view is that of the two-station ring). -/
+def RplRun (cfg : Cfg) (x y aL aH : Nat) (state : ResponseState) (B : Int) : Net → List (Nat × Int) → Prop
   | _, [] => True
   | n, (i, now) :: rest =>
     ∃ n' inc c, n.poll i now = (n', inc, some (.ok c)) ∧
-      ((i = y ∧ (c.tx = none ∨ c.tx = some (statusResponseBytes aL aH .masterNotReady)) ∧ RplRun cfg x y aL aH B n' rest) ∨
-       (i = x ∧ c.tx = none ∧ (RplRun cfg x y aL aH B n' rest ∨
-          (now ≤ B ∧ ∃ stx sty q coll, HQ3 cfg n' x y stx sty q now coll ∧ stx.s.p.address = aL ∧ sty.s.p.address = aH))))
+      ((i = y ∧ (c.tx = none ∨ c.tx = some (statusResponseBytes aL aH state)) ∧ RplRun cfg x y aL aH state B n' rest) ∨
+       (i = x ∧ c.tx = none ∧ (RplRun cfg x y aL aH state B n' rest ∨
+          (now ≤ B ∧ ∃ stx sty q coll, HQ3 cfg n' x y stx sty q now coll state ∧ stx.s.p.address = aL ∧ sty.s.p.address = aH))))
 
 /-- **The first answered GAP request**: from the request on the bus, under any schedule that polls every station at
-least every `P`, the listener registers it, waits for the synchronisation pause and sends "not ready"; the claimant
-waits (its slot time never runs out), receives the reply in whatever pieces it arrives, and goes on scanning, at the
-latest `2 · ce 5 + bits 33 + 3 P` after the start of the request. -/
+least every `P`, the listener registers it, waits for the synchronisation pause and sends its report (`state`: what
+`listenReport` yields once it has heard everything up to the request); the requester (in `ClaimToken(ScanAwait)` or
+`AwaitStatusResponse`) waits (its slot time never runs out), receives the reply in whatever pieces it arrives, and
+goes on (adopting the listener if the report admits it), at the latest `2 · ce 5 + bits 33 + 3 P` after the start of
+the request. -/
 theorem reply_run {cfg : Cfg} (hok : cfg.Ok) (G : Nat) (hG : cfg.slot + 3 * cfg.P ≤ G) (x y : Nat) (r : Int) (r0 : TokenRing)
-    (T : List Telegram) (aL aH : Nat) (hnr : (hearAll aL T r0).readyForRing = false) :
+    (T : List Telegram) (aL aH : Nat) (state : ResponseState)
+    (hrep : ∀ s : Station, s.ring = hearAll aL T r0 → listenReport s aL = state) :
     ∀ (evs : List (Nat × Int)) (n : Net) (stx sty : NetStation) (coll : Nat) (tl : Int),
-    HQ cfg G n x y stx sty r r0 T coll tl → n.stations.length = 2 → stx.s.p.address = aL → sty.s.p.address = aH →
+    HQ cfg G n x y stx sty r r0 T state coll tl → n.stations.length = 2 → stx.s.p.address = aL → sty.s.p.address = aH →
     SchedN cfg.P n tl evs →
-    RplRun cfg x y aL aH (r + 2 * ((cfg.ce 5 : Nat) : Int) + (cfg.b33 : Nat) + 3 * (cfg.P : Nat)) n evs := by
+    RplRun cfg x y aL aH state (r + 2 * ((cfg.ce 5 : Nat) : Int) + (cfg.b33 : Nat) + 3 * (cfg.P : Nat)) n evs := by
   intro evs
   induction evs with
   | nil => intro _ _ _ _ _ _ _ _ _ _; trivial
@@ -1371,7 +955,7 @@ theorem reply_run {cfg : Cfg} (hok : cfg.Ok) (G : Nat) (hG : cfg.slot + 3 * cfg.
       have := Net.poll_len n i now; rw [hp] at this; simp only at this; rw [this]; exact hN
     rcases hixy with rfl | rfl
     · -- the claimant
-      rcases hq with ⟨hd, dn, rs, lY, h, hT⟩ | ⟨h1, h, hnr1⟩ | ⟨q, state, lX, h⟩
+      rcases hq with ⟨hd, dn, rs, lY, h, hT⟩ | ⟨h1, h, hnr1⟩ | ⟨q, lX, h⟩
       · obtain ⟨n', c, hp, htx, h'⟩ := hq0_claimant h hok now htl hown hgy
         have hn' : (n.poll i now).1 = n' := by rw [hp]
         rw [hn'] at hrest
@@ -1388,7 +972,7 @@ theorem reply_run {cfg : Cfg} (hok : cfg.Ok) (G : Nat) (hG : cfg.slot + 3 * cfg.
         have haL' : (upSt stx c).s.p.address = aL := by show c.s.p.address = _; rw [hpp]; exact haL
         refine ⟨n', inc, c, hp, .inr ⟨rfl, htx, ?_⟩⟩
         rcases h' with ⟨lX', h'⟩ | ⟨hqe, h3⟩
-        · exact .inl (ih n' (upSt stx c) sty coll now (.inr (.inr ⟨q, state, lX', h'⟩)) (hlenOf _ _ _ hp) haL' haH hrest)
+        · exact .inl (ih n' (upSt stx c) sty coll now (.inr (.inr ⟨q, lX', h'⟩)) (hlenOf _ _ _ hp) haL' haH hrest)
         · refine .inr ⟨?_, upSt stx c, sty, q, coll, h3, haL', haH⟩
           have hc5 := cfg.ce5 hok.rate
           have hhead := h.headX
@@ -1402,7 +986,7 @@ theorem reply_run {cfg : Cfg} (hok : cfg.Ok) (G : Nat) (hG : cfg.slot + 3 * cfg.
               omega
           omega
     · -- the listener
-      rcases hq with ⟨hd, dn, rs, lY, h, hT⟩ | ⟨h1, h, hnr1⟩ | ⟨q, state, lX, h⟩
+      rcases hq with ⟨hd, dn, rs, lY, h, hT⟩ | ⟨h1, h, hnr1⟩ | ⟨q, lX, h⟩
       · obtain ⟨n', inc, c, hp, htx, h'⟩ := hq0_listener h hok hG now htl hown hgy
         have hn' : (n.poll i now).1 = n' := by rw [hp]
         rw [hn'] at hrest
@@ -1412,8 +996,8 @@ theorem reply_run {cfg : Cfg} (hok : cfg.Ok) (G : Nat) (hG : cfg.slot + 3 * cfg.
         rcases h' with ⟨hd', dn', rs', lY', h', hT'⟩ | ⟨h', hring⟩
         · exact ih n' stx (upSt sty c) coll now (.inl ⟨hd', dn', rs', lY', h', hT'.trans hT⟩) (hlenOf _ _ _ hp) haL haH' hrest
         · refine ih n' stx (upSt sty c) coll now (.inr (.inl ⟨now, h', ?_⟩)) (hlenOf _ _ _ hp) haL haH' hrest
-          rw [hring, hT, haL]; exact hnr
-      · obtain ⟨n', c, hp, h'⟩ := hq1_listener h hok now htl hown hgy hnr1
+          rw [haL]; exact hrep _ (by rw [hring, hT, haL])
+      · obtain ⟨n', c, hp, h'⟩ := hq1_listener h hok now htl hown hgy
         have hn' : (n.poll i now).1 = n' := by rw [hp]
         rw [hn'] at hrest
         have hpp := Net.poll_params n i now n' [] c sty hp hgy0
@@ -1422,12 +1006,13 @@ theorem reply_run {cfg : Cfg} (hok : cfg.Ok) (G : Nat) (hG : cfg.slot + 3 * cfg.
         · refine ⟨n', [], c, hp, .inl ⟨rfl, .inl htx, ?_⟩⟩
           exact ih n' stx (upSt sty c) coll now (.inr (.inl ⟨h1, h', by rw [hsame]; exact hnr1⟩)) (hlenOf _ _ _ hp) haL haH' hrest
         · refine ⟨n', [], c, hp, .inl ⟨rfl, .inr ?_, ?_⟩⟩
-          · rw [htx, listenReport_notReady _ _ hnr1, haL, haH]
-          · exact ih n' stx (upSt sty c) coll now (.inr (.inr ⟨now, _, _, h'⟩)) (hlenOf _ _ _ hp) haL haH' hrest
+          · rw [htx, hnr1, haL, haH]
+          · rw [hnr1] at h'
+            exact ih n' stx (upSt sty c) coll now (.inr (.inr ⟨now, _, h'⟩)) (hlenOf _ _ _ hp) haL haH' hrest
       · obtain ⟨n', c, hp, htx, h'⟩ := hq2_listener h hok now htl hown hgx
         have hn' : (n.poll i now).1 = n' := by rw [hp]
         rw [hn'] at hrest
-        exact ⟨n', [], c, hp, .inl ⟨rfl, .inl htx, ih n' stx sty coll now (.inr (.inr ⟨q, state, lX, h'⟩))
+        exact ⟨n', [], c, hp, .inl ⟨rfl, .inl htx, ih n' stx sty coll now (.inr (.inr ⟨q, lX, h'⟩))
           (hlenOf _ _ _ hp) haL haH hrest⟩⟩
 
 end PV
